@@ -7,6 +7,9 @@
 package main
 
 import (
+	"github.com/ogen-go/ogen/openapi/parser"
+	"github.com/ogen-go/ogen"
+	"strconv"
 	"sort"
 	stdjson "encoding/json"
 	"fmt"
@@ -366,6 +369,54 @@ func main() {
 	wg.Wait()
 	enumN = int64(len(E)) * int64(len(E))
 
+	// the same question asked through a document: the enum of a parameter schema in an OpenAPI
+	// document (JSON text; members travel through the YAML front end and the raw-value conversion)
+	{
+		docMembers := []string{"1", "1.0", "1e0", "10e-1", "2", "0.1", "1e-1", "0.10000000000000001", "9007199254740992", "9007199254740993", "9007199254740992.0", "18446744073709551616", "18446744073709551617",
+			"1e400", "2e400", "1e-400", "2e-400", "0", "-0", "0.0", "123456789012345678901234567890", "123456789012345678901234567891", "0.5", "5e-1", "-1", "-1.0",
+			`"a"`, `"\u0061"`, `"1"`, `"b"`, `""`, "true", "false", "null", "[]", "[1]", "[1.0]", "{}", `{"a":1}`, `{"a":1.0}`}
+		var docN int64
+		for _, a := range docMembers {
+			for _, b := range docMembers {
+				docN++
+				want := jsonref.Canon(a).Canon == jsonref.Canon(b).Canon
+				doc := `{"openapi":"3.0.3","info":{"title":"t","version":"1"},"paths":{"/a":{"get":{"operationId":"a","parameters":[{"name":"q","in":"query","schema":{"enum":[` + a + `,` + b + `]}}],"responses":{"200":{"description":"ok"}}}}}}`
+				dup, et, pan := func() (dup bool, et string, pan any) {
+					defer func() { pan = recover() }()
+					spec, err := ogen.Parse([]byte(doc))
+					if err == nil {
+						_, err = parser.Parse(spec, parser.Settings{})
+					}
+					if err != nil {
+						return strings.Contains(err.Error(), "duplicate enum value"), err.Error(), nil
+					}
+					return false, "", nil
+				}()
+				c := pairCase{Kind: "enum-in-document", A: a, B: b, Want: fmt.Sprint("duplicate=", want), Got: fmt.Sprintf("duplicate=%v err=%q", dup, trunc(et, 200))}
+				// float64 collapse: the two members are different decimals that become the same float64
+				fa, ea := strconv.ParseFloat(a, 64)
+				fb, eb := strconv.ParseFloat(b, 64)
+				cause := ""
+				if ea == nil && eb == nil && (fa == fb) {
+					cause = "same-float64"
+				} else if (ea != nil) != (eb != nil) || (ea != nil && eb != nil && (a[0] >= '0' && a[0] <= '9' || a[0] == '-') && (b[0] >= '0' && b[0] <= '9' || b[0] == '-')) {
+					cause = "float64-overflow"
+				}
+				switch {
+				case pan != nil:
+					c.Got = fmt.Sprint("panic: ", pan)
+					r.Violation(map[string]string{"class": "enum-in-document-panic", "a": a, "b": b}, len(a)+len(b), c)
+				case dup && !want:
+					r.Violation(map[string]string{"class": "enum-in-document-distinct-members-rejected-as-duplicate", "a": a, "b": b, "cause": cause}, len(a)+len(b), c)
+				case !dup && want && et == "":
+					r.Violation(map[string]string{"class": "enum-in-document-duplicate-members-not-detected", "a": a, "b": b, "cause": cause}, len(a)+len(b), c)
+				}
+			}
+		}
+		r.Eval(docN)
+		r.Set("enum_pairs_through_a_document", docN)
+	}
+
 	// positional enums: every enum of 3 and of 4 members over a small value set (all JSON types, two
 	// spellings of some values), untyped and under each matching `type`: a duplicate must be found
 	// wherever the two equal members stand (first/last, adjacent or not) and whatever the type
@@ -491,4 +542,11 @@ func malKind(orig, m string) string {
 		return "truncated"
 	}
 	return "trailing-data"
+}
+
+func trunc(s string, n int) string {
+	if len(s) > n {
+		return s[:n] + "..."
+	}
+	return s
 }
